@@ -765,7 +765,7 @@ fn register_e1(reg: &mut zverif::Registry) {
             .batches(&[&[AB, C300]])
             .remove_batch()
             .reopen()
-            .depth(3, 4),
+            .depth(4, 5),
     ));
     for level in [1, 9] {
         reg.add(Seq(
